@@ -304,6 +304,7 @@ def run(ctx):
         if nontrivial:
             distinct.add(vlib.canon_hash(c))
 
+    ctx.log("sequential oracle done")
     # ---- (S) the Coq models on the same sequences
     seq_mismatch = None
     if souts and len(souts) == len(cases):
@@ -337,6 +338,7 @@ def run(ctx):
         elif pow_bad:
             ctx.tie_broken("Model.nextPowerOfTwo vs Go nextPowerOfTwo", pdet)
 
+    ctx.log("model comparison done")
     # ---- (T) schedules
     sched_runs = sched_distinct = sched_steps = 0
     sig_seen = {}
@@ -379,12 +381,14 @@ def run(ctx):
             sig_seen[sig] = 1
             ctx.violation(sig, "%s [stress %s]: %s" % (s["Cfg"]["K"], json.dumps(s["Cfg"]), v["What"]), {"stress": s["Cfg"], "seed": ctx.seed})
 
+    ctx.log("schedules/stress evaluated")
     # ---- the theorems
     if not ctx.coq_property():
         if not any(f.kind == "violation" for f in ctx.findings):
             ctx.proof_broken("Properties/C04.v (%s)" % getattr(ctx, "failed_at", "?"), getattr(ctx, "coq_log", ""))
         else:
             ctx.notes.append("Coq obligation broken at %s; concrete failing input reported" % getattr(ctx, "failed_at", "?"))
+    ctx.log("coq property built")
     thms = re.findall(r"^\s*Theorem\s+(\w+)", open(os.path.join(vlib.COQ, "theories/Properties/C04.v")).read(), re.M) if os.path.exists(os.path.join(vlib.COQ, "theories/Properties/C04.v")) else []
 
     samples = []
